@@ -43,17 +43,39 @@ Fixpoint hasPrefix (p l : bytes) : bool :=
   | _ :: _, [] => false
   end.
 
-(* skipStringLiteral, forward form.  Go: find the next ')', count the backslashes right in
-   front of it inside the current s; an even count (0 included) closes, an odd one skips the
-   ')' and restarts with s = s[i+1:] (so the count restarts there). k = length of the run of
-   backslashes immediately before the current byte since the last restart. *)
-Fixpoint skipStr (k : nat) (s : bytes) : option bytes :=
+(* skipStringLiteral, second part (the fallback; the only part before fix 896a0b77), forward form.  Go: find
+   the next ')', count the backslashes right in front of it inside the current s; an even
+   count (0 included) closes, an odd one skips the ')' and restarts with s = s[i+1:] (so the
+   count restarts there). k = length of the run of backslashes immediately before the
+   current byte since the last restart. *)
+Fixpoint skipStrOld (k : nat) (s : bytes) : option bytes :=
   match s with
   | [] => None                                           (* errStringLiteralCorrupt *)
   | c :: r =>
-      if c =? 41 then (if Nat.even k then Some r else skipStr 0 r)
-      else if c =? 92 then skipStr (S k) r
-      else skipStr 0 r
+      if c =? 41 then (if Nat.even k then Some r else skipStrOld 0 r)
+      else if c =? 92 then skipStrOld (S k) r
+      else skipStrOld 0 r
+  end.
+
+(* skipStringLiteral, first part (fixes 896a0b77 + b5e38ac0): `for i := 1; i < len(s); i++`
+   -- s[0] is the opening parenthesis -- with a depth counter: a backslash skips the next byte,
+   '(' is depth++, ')' closes when depth == 0, else depth--.  None = the loop ran to the end
+   of the input without closing (unbalanced string). *)
+Fixpoint fwdScan (depth : nat) (s : bytes) : option bytes :=
+  match s with
+  | [] => None
+  | c :: r =>
+      if c =? 92 then match r with [] => None | _ :: r2 => fwdScan depth r2 end
+      else if c =? 40 then fwdScan (S depth) r
+      else if c =? 41 then match depth with O => Some r | S d => fwdScan d r end
+      else fwdScan depth r
+  end.
+
+(* skipStringLiteral(l), l[0] == '(' *)
+Definition skipStr (s : bytes) : option bytes :=
+  match fwdScan 0 (tl s) with
+  | Some r => Some r
+  | None => skipStrOld 0 s                               (* "Unbalanced: fall back ..." *)
   end.
 
 (* skipHexStringLiteral: up to and including the first '>' *)
@@ -79,7 +101,7 @@ Fixpoint skipTJ (fuel : nat) (s : bytes) : option bytes :=
       | [] => None                                        (* errTJExpressionCorrupt *)
       | c :: r =>
           if c =? 93 then Some r
-          else if c =? 40 then match skipStr 0 (c :: r) with Some s' => skipTJ f s' | None => None end
+          else if c =? 40 then match skipStr (c :: r) with Some s' => skipTJ f s' | None => None end
           else if c =? 60 then match skipHex (c :: r) with Some s' => skipTJ f s' | None => None end
           else match splitAt [60; 40; 93] (c :: r) with
                | Some (_, s') => skipTJ f s'
@@ -122,7 +144,7 @@ Fixpoint positionToNext (fuel : nat) (l : bytes) : ptok :=
       | c :: r =>
           if c =? 37 then positionToNext f (toEOL (c :: r))
           else if c =? 91 then match skipTJ (S (length r)) (c :: r) with Some l' => positionToNext f l' | None => PErr end
-          else if c =? 40 then match skipStr 0 (c :: r) with Some l' => positionToNext f l' | None => PErr end
+          else if c =? 40 then match skipStr (c :: r) with Some l' => positionToNext f l' | None => PErr end
           else if c =? 60 then match skipHex (c :: r) with Some l' => positionToNext f l' | None => PErr end
           else if hasPrefix [66; 73] (c :: r) then           (* skipInlineImage *)
             match r with
